@@ -278,8 +278,14 @@ def _raw_name_on_line(src, msg, names, prefix="field_"):
     if not 0 <= i < len(lines):
         return False
     line = lines[i]
-    return any((not n.isidentifier()) and ((len(n) >= 3 and n in line) or (n and re.search(r"\b" + re.escape(prefix) + re.escape(n) + r"(?!\w)", line)))
-               for n in names)
+    hit = [n for n in names if (not n.isidentifier()) and ((len(n) >= 3 and n in line) or (n and re.search(r"\b" + re.escape(prefix) + re.escape(n) + r"(?!\w)", line)))]
+    if not hit:
+        return ""
+    # the generator's sanitiser lets word characters and the delimiters " ", ".", "-" through: a verbatim name holding anything
+    # else was not sanitised at all, which is a different defect from the (recorded) delimiter-keeping fallback
+    if any(re.search(r"[^\w .\-]", n) for n in hit):
+        return "raw-name-unsanitised/"
+    return "raw-name/"
 
 
 def tree_violations(res, key, do_import=True, names=()):
@@ -288,7 +294,7 @@ def tree_violations(res, key, do_import=True, names=()):
     pkg = res.pkg_tree()
     bad_syntax = trees.syntax_errors(pkg)
     for f, msg in bad_syntax:
-        cls = "raw-name/" if _raw_name_on_line(pkg[f], msg, names) else ""
+        cls = _raw_name_on_line(pkg[f], msg, names)
         viol.append({"oracle": "py-syntax", "site": role(f), "key": f"{key}/{cls}{norm_msg(msg)}", "detail": f"{f}: {msg}"})
     if res.tree is not None and res.pkg_prefix:
         for f, src in res.tree.items():      # setup.py lives outside the package directory
